@@ -605,7 +605,9 @@ func cmdCheck(args []string) int {
 			runs = v
 		}
 	}
-	budget := 10 * time.Minute
+	// watchdog only (a quick batch takes 10-90 s on an idle 16-core machine, several times that when
+	// other checks run beside it)
+	budget := 30 * time.Minute
 	if tier == "thorough" {
 		budget = 6 * time.Hour
 	}
@@ -676,6 +678,13 @@ func cmdCheck(args []string) int {
 				if !died {
 					return
 				}
+				if stderr == "BSIM-KILLED-BY-DEADLINE" {
+					// the batch budget ran out and the parent itself stopped this worker
+					mu.Lock()
+					watchdog = true
+					mu.Unlock()
+					return
+				}
 				// the worker process died: the plan it was executing is in cur
 				data, err := os.ReadFile(cur)
 				var p vm.Plan
@@ -728,8 +737,13 @@ func cmdCheck(args []string) int {
 		return 2
 	}
 	if watchdog {
-		fmt.Println("WATCHDOG: batch budget exhausted before all runs were executed (not a verdict)")
-		return 2
+		if len(founds) == 0 {
+			fmt.Println("WATCHDOG: batch budget exhausted before all runs were executed (not a verdict)")
+			return 2
+		}
+		// an incomplete batch cannot show that the property held, but what it found it found: the
+		// violations below were produced by completed runs and are confirmed in fresh processes
+		fmt.Println("NOTE: batch budget exhausted before all runs were executed; reporting the violations found by the runs that completed")
 	}
 
 	// classify violations
@@ -910,7 +924,8 @@ func spawnWorker(id, tier string, seed int64, from, to, stride int, cur string, 
 	}
 	pw.Close()
 	finished := false
-	timer := time.AfterFunc(time.Until(deadline)+30*time.Second, func() { cmd.Process.Kill() })
+	var killed atomic.Bool
+	timer := time.AfterFunc(time.Until(deadline)+30*time.Second, func() { killed.Store(true); cmd.Process.Kill() })
 	sc := bufio.NewScanner(pr)
 	sc.Buffer(make([]byte, 1<<20), 1<<28)
 	for sc.Scan() {
@@ -927,6 +942,9 @@ func spawnWorker(id, tier string, seed int64, from, to, stride int, cur string, 
 	cmd.Wait()
 	timer.Stop()
 	pr.Close()
+	if killed.Load() {
+		return from, "BSIM-KILLED-BY-DEADLINE", true
+	}
 	return from, stderr.String(), !finished
 }
 
